@@ -87,20 +87,20 @@ Qed.
 Lemma ref_inv scripts sched : ref_ok (AO.obj (run (AO.step REF.sstep) sched (AO.init REF.init scripts))).
 Proof. apply ao_inv; [unfold ref_ok; simpl; auto|]. intros; eapply ref_step_ok; eauto. Qed.
 
-(* the callback runs in a Clean call exactly when that call takes the count to zero, and then the
-   resource is marked cleaned for good *)
+(* the callback runs in a Clean call (result 1, or 2 if it panics) exactly when that call takes the
+   count to zero, and then the resource is marked cleaned for good *)
 Lemma ref_clean_step s t o s' r : 1 <= o_code o -> REF.sstep s t o = Some (s', r) ->
-  (r = 1 <-> REF.cleaned s = false /\ (REF.ref s - 1 = 0)%Z) /\
-  (r = 1 -> REF.cleaned s' = true /\ REF.ncb s' = S (REF.ncb s)) /\
+  (1 <= r <-> REF.cleaned s = false /\ (REF.ref s - 1 = 0)%Z) /\
+  (1 <= r -> REF.cleaned s' = true /\ REF.ncb s' = S (REF.ncb s)) /\
   (r = 0 -> REF.ncb s' = REF.ncb s) /\
   (REF.cleaned s = true -> s' = s).
 Proof.
   unfold REF.sstep. intros Ho H. destruct (o_code o) as [|k]; [lia|].
   destruct (REF.cleaned s) eqn:Ec.
-  - injection H as <- <-. repeat split; auto; try discriminate. intros [? _]; discriminate.
+  - injection H as <- <-. repeat split; auto; try discriminate; try lia; try (intros [? _]; discriminate).
   - destruct (Z.eqb (REF.ref s - 1) 0) eqn:Ez; injection H as <- <-; cbn [REF.ref REF.cleaned REF.ncb REF.nuse REF.ncl].
-    + apply Z.eqb_eq in Ez. repeat split; auto; discriminate.
-    + apply Z.eqb_neq in Ez. repeat split; auto; try discriminate. intros [_ ?]; contradiction.
+    + apply Z.eqb_eq in Ez. repeat split; auto; try discriminate; destruct (Nat.eqb (o_a o) 0); lia.
+    + apply Z.eqb_neq in Ez. repeat split; auto; try discriminate; try lia; try (intros [_ ?]; contradiction).
 Qed.
 
 Lemma ref_use_step s t o : o_code o = 0 ->
